@@ -25,26 +25,48 @@ def _jsonable(v):
 
 
 def run_episode(spec, uid="E"):
+    events = []
+    for _ in iter_episode(spec, uid, None, events):
+        pass
+    return events
+
+
+def iter_episode(spec, uid="E", shared=None, events=None):
+    """Generator form (one step per item).  With `shared` (session replays) an item may name an architecture number
+    "a": the real architecture (world number, "ident") that another driver of the same session built - and possibly
+    grew - is used instead of one built here."""
     import pytestarch.eval_structure.networkxgraph as nxg
 
     world = World(spec["world"]["modules"], spec["world"]["imports"])
-    reals, events = {}, []
+    reals = {}
+    events = events if events is not None else []
+    logged = set()
 
-    def real(kind):
-        if kind not in reals:
-            render, back = _renderer(kind)
-            reals[kind] = (build_real(world, render, level_limit=spec.get("level_limit"),
-                                      order_seed=spec.get("order_seed")), render, back)
-            events.append({"k": "arch", "a": f"{uid}.A{kind}", "first": not events, **observe(reals[kind][0], back)})
-        return reals[kind]
+    def real(kind, n=None):
+        key = kind if n is None else (n, kind)
+        if key not in reals:
+            if n is not None and shared is not None and (n, kind) in shared:
+                reals[key] = shared[(n, kind)]
+            else:
+                render, back = _renderer(kind)
+                reals[key] = (build_real(world, render, level_limit=spec.get("level_limit"),
+                                         order_seed=spec.get("order_seed")), render, back)
+                if n is not None and shared is not None:
+                    shared[(n, kind)] = reals[key]
+        if key not in logged:
+            logged.add(key)
+            aid = f"{uid}.A{kind}" if n is None else f"{uid}.A{n}"
+            events.append({"k": "arch", "a": aid, "first": not events, **observe(reals[key][0], reals[key][2])})
+        return reals[key]
 
     referenced = {(a, rid) for it in spec["items"] if it["op"] == "law" for a, rid in zip(it["as"], it["rids"])}
     for it in spec["items"]:
         if it["op"] == "law":
             events.append({"k": "law", "law": it["law"], "as": [f"{uid}.A{a}" for a in it["as"]], "rids": it["rids"]})
+            yield events
             continue
         kind = it.get("render", spec.get("render", "ident"))
-        ev, render, back = real(kind)
+        ev, render, back = real(kind, it.get("a") if shared is not None else None)
         conv = (lambda s: s.split(".")) if back is None else back
         before = observe(ev, back)
         aliases = it.get("aliases")
@@ -77,7 +99,8 @@ def run_episode(spec, uid="E"):
                 raise
             except Exception as e:  # noqa: BLE001
                 out, err = "error", f"{type(e).__name__}: {e}"
-        e = {"k": "viz", "a": f"{uid}.A{kind}", "rid": it["rid"], "with_aliases": aliases is not None,
+        e = {"k": "viz", "a": f"{uid}.A{kind}" if (shared is None or it.get("a") is None) else f"{uid}.A{it['a']}",
+             "rid": it["rid"], "with_aliases": aliases is not None,
              "aliases": [{"mod": list(a["mod"]), "text": a["text"]} for a in (aliases or [])],
              "out": out, "err": err[:300], "err_names": [], "labels": [], "labels_given": False, "render": [],
              "kw_in": sorted([k, _jsonable(v)] for k, v in kw.items()), "kw_out": [], "drawn": len(calls),
@@ -115,4 +138,4 @@ def run_episode(spec, uid="E"):
                         table.append({"mod": list(m), "src": list(a["mod"]), "text": a["text"] + rm[len(ra):]})
             e["render"] = table
         events.append(e)
-    return events
+        yield events
